@@ -228,6 +228,9 @@ pub fn run(tier: &str, seed: u64, dir: &str) {
         let (bps, bad, maxerr) = exhaustive_u16(&mut out); parts.push(format!("\"prophoto16\":{{\"breakpoints\":{},\"bad\":{},\"max_err\":{:.6}}}", bps, bad, maxerr));
         extra = format!("\"exhaustive\":{{{}}}", parts.join(","));
     }
+    // coverage audit: forms, entry points, component types and type parameters the clauses above do not drive (`c05_more.rs`).
+    // Called last, so that the case stream above is unchanged.
+    crate::c05_more::run_more(&mut out, &mut rng, tier);
     out.finish(dir, &extra);
 }
 
